@@ -251,7 +251,7 @@ fn mutate(rng: &mut Rng, p: &mut Parts) -> Option<String> {
                     0 => (p.len + 1, p.offset, "len + 1"),
                     1 => (p.len, p.offset + 1, "offset + 1"),
                     2 => (p.len + 64, p.offset, "len + 64"),
-                    3 => (p.len, usize::MAX - p.len + 1, "offset so that len + offset overflows"),
+                    3 => (p.len, (usize::MAX - p.len).wrapping_add(1), "offset so that len + offset overflows"),
                     4 => (usize::MAX - p.offset, p.offset, "len = usize::MAX - offset"),
                     _ => (p.len + 8, p.offset.saturating_sub(1), "len + 8, offset - 1"),
                 };
@@ -594,7 +594,7 @@ fn typed_constructors(ctx: &mut Ctx, p: &Parts, mutation: &str, detail: &dyn Fn(
             }
         }
         // wrong row count must be rejected
-        let opts = RecordBatchOptions::new().with_row_count(Some(n + 1));
+        let opts = RecordBatchOptions::new().with_row_count(Some(n.wrapping_add(1)));
         if let Ok(Ok(b)) = guard(|| RecordBatch::try_new_with_options(schema.clone(), vec![a.clone()], &opts)) {
             ctx.violation("C09|RecordBatch::try_new_with_options|row-count-mismatch-accepted", format!("batch with {} rows accepted for a column of {n} rows\n{}", b.num_rows(), detail()));
         }
